@@ -26,6 +26,7 @@ def jobs(tier, seed):
         add(3, 1, 0, 2, 2, 1, 1, 0, 0)
         add(0, 1, 1, 2, 2, 1, 1, 0, 0, diff=True)
         add(1, 0, 0, 1, 1, 1, 0, 1, 0)
+        add(3, 1, 1, 1, 1, 1, 0, 1, 0)     # COMBINED with FMG: the start-up cycles must not see a leftover smoother switch either
     else:
         for ex in (0, 1, 2, 3):
             for fmg in (0, 1):
